@@ -59,6 +59,10 @@ def states(tier):
         for su, ln in ((0, 0), (1, 0), (0, 1), (1, 1)):
             for u in ((0, 0, 0), (1, 54321, 0)):
                 S.append(dict(base, env=e, sudo=su, logname=ln, ids=u + (0, 0, 0)))
+    # (b3b) login names around the data source's own 254-byte limit (through SUDO_USER and through LOGNAME)
+    for n in (253, 254, 255, 256, 300):
+        S.append(dict(base, logname=n))
+        S.append(dict(base, sudo=n, logname=1))
     # (b4) host x chain
     for h in ('-', 'short', 'h' * 64):
         for ch in ('', 'alpha', 'alpha/beta b', 'alpha/(x)/gamma'):
@@ -126,6 +130,8 @@ def check_state(st, out, pw, gr, version):
         return ds[n][1].decode('latin-1')
 
     def expect(n, want):
+        if n == 'login' and len(str(want)) > 254:
+            want = str(want)[:254]       # the data source documents a 254-byte maximum
         if val(n) != str(want):
             bad.append((n, 'got=%r want=%r' % (val(n)[:60], str(want)[:60])))
     expect('uid', f['ruid']); expect('euid', f['euid']); expect('gid', f['rgid']); expect('egid', f['egid'])
